@@ -67,7 +67,7 @@ def _(c):
     c.param("module_path", "tuple[str]")
     c.returns("seq")
     c.fieldspec("default_value", "seq")
-    c.loop(0, invariant=("prefix_concat", "seq_eq(values, concat_app(instances, module_path, _k0))"))
+    c.loop(0, invariant=("prefix_concat", "seq_eq(_retvar, concat_app(instances, module_path, _k0))"))
     c.ensures("seq_eq(result, concat_app(instances, module_path, len(instances)))", name="concat_in_order")
 
 
